@@ -17,7 +17,6 @@ RULE = ("malformed stream (delimiter soups, empty brackets, empty hosts with por
         "exception other than ValueError/TypeError anywhere in the observation, and str() succeeds on every object "
         "returned in auto-encoding mode; distinct = distinct program")
 
-KF = [("F17", "kf_f17_1")]
 
 
 def run(ctx):
@@ -25,8 +24,11 @@ def run(ctx):
     strs = list(gens.delimiter_strings(3 if ctx.quick else 4))
     strs += gens.soup_urls(rng, 4000 if ctx.quick else 60000)
     strs += ["http://[]/", "http://[", "http://]", "x://:80/", "//:", "//@", "//@:", "http://@/", "http://:@/", "[", "]", "%", ":", "//[::1", "//::1]",
-             "http://[v]/", "http://[v1.]/", "http://[vg.x]/", "http://[1.2.3.4]/", "http://h:" + "9" * 5000, "a" * 200000, "%" * 50000,
-             "http://" + "a." * 5000 + "com/", "/" * 100000, "http://h/" + "../" * 30000, "?" + "&" * 100000]
+             "http://[v]/", "http://[v1.]/", "http://[vg.x]/", "http://[1.2.3.4]/", "http://h:" + "9" * 300, "a" * 3000, "%" * 2000,
+             "http://" + "a." * 300 + "com/", "/" * 3000, "http://h/" + "../" * 1000, "?" + "&" * 3000, "%41" * 700, "http://h/%2E" * 300]
+    # inputs too large for the (deliberately naive) extracted model: implementation only
+    huge = ["http://h:" + "9" * 5000, "a" * 200000, "%" * 50000, "http://" + "a." * 5000 + "com/", "/" * 100000,
+            "http://h/" + "../" * 30000, "?" + "&" * 100000, "http://h/" + "%C3%A9" * 30000, "#" + "\U0001f600" * 20000]
     progs = [[["push", ["url", s]]] for s in strs] + [[["push", ["enc", s]]] for s in strs]
     progs += gens.random_programs(rng, 8000 if ctx.quick else 100000, maxops=4)
     progs = [f["witness"] for f in ctx.findings if f.get("witness")] + progs
@@ -34,4 +36,9 @@ def run(ctx):
     suites.apply_pred(ctx, "C19-programs", "c19_pred", outs,
                       lambda k, i: enc(suites.is_autoenc(progs[i])) + " " + outs[k][i],
                       lambda k, i: {"program": progs[i] if len(repr(progs[i])) < 2000 else repr(progs[i])[:2000], "impl": outs[k][i][:3000]},
-                      kf=KF)
+                      kf=core.kf_list(ctx))
+    hprogs = [[["push", ["url", s]]] for s in huge] + [[["push", ["enc", s]]] for s in huge]
+    houts = core.check_suite(ctx, "C19-huge-impl-only", [("observe", [2, p]) for p in hprogs], kinds=("py", "c"), compare=False)
+    suites.apply_pred(ctx, "C19-huge-impl-only", "c19_pred", houts,
+                      lambda k, i: enc(suites.is_autoenc(hprogs[i])) + " " + houts[k][i],
+                      lambda k, i: {"program": repr(hprogs[i])[:300], "impl": houts[k][i][:1000]})
